@@ -1,9 +1,11 @@
 import NavisModel.Model.Xform
+import NavisModel.Model.XformImage
 import NavisModel.Drv.Proto
 /-!
 Line protocol for C16.  Rationals are `n` or `n/d`; sections are separated by `|`.
 
-* transform `F` : `;`-separated steps applied in order, each `A:<12 rationals, row-major [A|t]>` (affine) or
+* transform `F` : `;`-separated steps applied in order, each `A:<12 rationals, row-major [A|t]>` (affine),
+  `I:<12>` (the inverse of that affine map: an inverse bridging edge) or
   `Q:a,b,c` (the non-affine map `(x,y,z) ↦ (x + a·y·z, y + b·z², c·z)`) or `M:<axis>,<size>` (flip); empty = identity.
 * rows `R` : `;`-separated `x,y,z,rest` (`rest` = opaque token for every other column, no blanks / `,;|=`).
 * neuron `N` : blank-separated `key=value`:
@@ -18,9 +20,30 @@ Line protocol for C16.  Rationals are `n` or `n/d`; sections are separated by `|
 * `c16.symmn lo,hi | G | G0 | N`       → `N'` or `RAISES`                     (`symmetrizeNeuron`)
 * `c16.tangents eps | dirs | vects`    → `ok=1` / `ok=0`                      (`tangentsOK`)
 * `c16.size lo,hi`                     → `lo+hi`                              (`axisSize`)
+
+`xform_brain` / `mirror_brain(via=…)`; `E` = `;`-separated edges of the bridging path in path order, each `a,<u>` (alias)
+or `t,<u>` (transform), `<u>` = `_navis_units` magnitude of the template the edge leads to or `-`:
+* `c16.checkm F | eps | N | N'`          → `ok=1` / `ok=0`                     (`checkMirror` on navis' own output)
+* `c16.checks lo,hi | G | G0 | eps | N | N'` → `ok=1` / `ok=0`               (`checkSymm`)
+* `c16.checkt F | R | R'`               → `ok=1` / `ok=0`                     (`checkTable`)
+* `c16.checkmesh F | pts | faces | pts' | faces'` → `ok=1` / `ok=0`           (`checkMesh`)
+* `c16.mag c`                           → `round(log10 c)` or `ERR`            (`roundLog10`)
+* `c16.bunits E`                        → units override (`-` = none)          (`brainUnits`)
+* `c16.xformb F | guess | E | N`        → `N'` or `RAISES`                     (`xformBrainNeuron`)
+* `c16.checkb F | guess | eps | E | N | N'` → `ok=1` / `ok=0`                  (`checkXformBrain`)
+* `c16.mirrorvia F1 | m1 | E1 | G | F2 | m2 | E2 | N` → `N'` or `RAISES`       (`mirrorViaNeuron`)
+
+Image path (`Model/XformImage.lean`); `FA` = `;`-separated AFFINE steps `A:<12>` | `I:<12>` (the inverse of the given
+matrix, as registered for an inverse bridging edge) | `M:<axis>,<size>`; `G` = `nx,ny,nz | ox,oy,oz | px,py,pz | VOX`,
+`VOX` = `;`-separated `i,j,k,v` (non-zero voxels):
+* `c16.image FA | G`                   → `off=… pitch=… vox=VOX'` or `RAISES`  (`imageOff/imagePitch/imageSparse`)
+* `c16.imgcheck FA | eps | G | off' | pitch' | VOX'` → `ok=1` / `ok=0`         (`imageOK` on navis' own output)
+* `c16.imgland FA | eps | G | off' | pitch' | VOX'`  → `ok=1 n=<landed>` / `ok=0 n=…` (`landsOK`, forward only)
+* `c16.pullback FA | pts`              → `pts'` or `RAISES`                   (`seqApply (negSeq ts)`: `(-seq).xform`)
+* `c16.forward FA | pts`               → `pts'`                               (`seqApply ts`)
 -/
 namespace Navis.Drv.C16
-open Navis.Xform Navis.Proto
+open Navis.Xform Navis.XformImage Navis.Proto
 
 def parseRat (s : String) : Option Rat :=
   match (trim s).splitOn "/" with
@@ -54,6 +77,12 @@ def parseStep (s : String) : Option RowFn :=
     match l with
     | [a11, a12, a13, t1, a21, a22, a23, t2, a31, a32, a33, t3] =>
       pure (Aff.apply ⟨a11, a12, a13, t1, a21, a22, a23, t2, a31, a32, a33, t3⟩)
+    | _ => none
+  else if s.startsWith "I:" then do
+    let l ← (items (s.drop 2).toString ",").mapM parseRat
+    match l with
+    | [a11, a12, a13, t1, a21, a22, a23, t2, a31, a32, a33, t3] =>
+      pure (Aff.apply (XformImage.inv ⟨a11, a12, a13, t1, a21, a22, a23, t2, a31, a32, a33, t3⟩))
     | _ => none
   else if s.startsWith "Q:" then do
     let l ← (items (s.drop 2).toString ",").mapM parseRat
@@ -183,6 +212,55 @@ def showNeuron (n : N) : String :=
 
 def b01 (b : Bool) : String := if b then "ok=1" else "ok=0"
 
+def parseEdges (s : String) : Option (List (Bool × Option Rat)) :=
+  (items s ";").mapM fun e =>
+    match items e "," with
+    | [k, u] => do
+      let u ← parseOptRat u
+      if k == "a" then pure (true, u) else if k == "t" then pure (false, u) else none
+    | _ => none
+
+/-! ### image path -/
+
+def parseAff12 (s : String) : Option Aff := do
+  let l ← (items s ",").mapM parseRat
+  match l with
+  | [a11, a12, a13, t1, a21, a22, a23, t2, a31, a32, a33, t3] =>
+    pure ⟨a11, a12, a13, t1, a21, a22, a23, t2, a31, a32, a33, t3⟩
+  | _ => none
+
+def parseAffStep (s : String) : Option Aff :=
+  let s := trim s
+  if s.startsWith "A:" then parseAff12 (s.drop 2).toString
+  else if s.startsWith "I:" then (parseAff12 (s.drop 2).toString).map XformImage.inv
+  else if s.startsWith "M:" then
+    match items (s.drop 2).toString "," with
+    | [a, sz] => do
+      let a ← parseAxis a; let sz ← parseRat sz
+      pure (mirrorMat a sz)
+    | _ => none
+  else none
+
+def parseAffSeq (s : String) : Option (List Aff) := (items s ";").mapM parseAffStep
+
+def parseVox (s : String) : Option (List Vox) :=
+  (items s ";").mapM fun r =>
+    match items r "," with
+    | [i, j, k, v] => do
+      let i ← i.toInt?; let j ← j.toInt?; let k ← k.toInt?; let v ← parseRat v
+      pure ⟨i, j, k, v⟩
+    | _ => none
+
+def showVox (l : List Vox) : String :=
+  ";".intercalate (l.map fun c => s!"{c.i},{c.j},{c.k},{showRat c.v}")
+
+def parseGrid (shape off pitch vox : String) : Option (Img × List Vox) := do
+  let v ← parseVox vox
+  let off ← parseV3 (items off ","); let pitch ← parseV3 (items pitch ",")
+  match (items shape ",").mapM (·.toNat?) with
+  | some [nx, ny, nz] => pure (⟨nx, ny, nz, off, pitch, sparseVal v⟩, v)
+  | _ => none
+
 def run (cmd : String) (rest : String) : Option String :=
   match cmd with
   | "xform" => match rest.splitOn "|" with
@@ -239,6 +317,81 @@ def run (cmd : String) (rest : String) : Option String :=
     | [eps, d, v] => do
       let eps ← parseRat eps; let d ← parsePts d; let v ← parsePts v
       pure (b01 (tangentsOK eps d v))
+    | _ => none
+  | "checkm" => match rest.splitOn "|" with
+    | [f, eps, n, out] => do
+      let f ← parseFn f; let eps ← parseRat eps; let n ← parseNeuron n; let out ← parseNeuron out
+      pure (b01 (checkMirror eps f n out))
+    | _ => none
+  | "checks" => match rest.splitOn "|" with
+    | [b, g, g0, eps, n, out] => do
+      let g ← parseFn g; let g0 ← parseFn g0; let eps ← parseRat eps; let n ← parseNeuron n; let out ← parseNeuron out
+      match (items b ",").mapM parseRat with
+      | some [lo, hi] => pure (b01 (checkSymm eps (symmetrize lo hi g g0) n out))
+      | _ => none
+    | _ => none
+  | "checkt" => match rest.splitOn "|" with
+    | [f, t, out] => do
+      let f ← parseFn f; let t ← parseTable t; let out ← parseTable out
+      pure (b01 (checkTable f t out))
+    | _ => none
+  | "checkmesh" => match rest.splitOn "|" with
+    | [f, v, fs, v', fs'] => do
+      let f ← parseFn f; let v ← parsePts v; let fs ← parseFaces fs; let v' ← parsePts v'; let fs' ← parseFaces fs'
+      pure (b01 (checkMesh f v fs v' fs'))
+    | _ => none
+  | "mag" => (parseRat rest).map fun c => match roundLog10 c with
+    | some m => toString m
+    | none => "ERR"
+  | "bunits" => (parseEdges rest).map fun e => showOptRat (brainUnits e)
+  | "xformb" => match rest.splitOn "|" with
+    | [f, g, e, n] => do
+      let f ← parseFn f; let g ← (trim g).toInt?; let e ← parseEdges e; let n ← parseNeuron n
+      pure (match xformBrainNeuron f g (brainUnits e) n with
+        | some out => showNeuron out
+        | none => "RAISES")
+    | _ => none
+  | "checkb" => match rest.splitOn "|" with
+    | [f, g, eps, e, n, out] => do
+      let f ← parseFn f; let g ← (trim g).toInt?; let eps ← parseRat eps; let e ← parseEdges e
+      let n ← parseNeuron n; let out ← parseNeuron out
+      pure (b01 (checkXformBrain eps f g (brainUnits e) n out))
+    | _ => none
+  | "mirrorvia" => match rest.splitOn "|" with
+    | [f1, m1, e1, g, f2, m2, e2, n] => do
+      let f1 ← parseFn f1; let m1 ← (trim m1).toInt?; let e1 ← parseEdges e1; let g ← parseFn g
+      let f2 ← parseFn f2; let m2 ← (trim m2).toInt?; let e2 ← parseEdges e2; let n ← parseNeuron n
+      pure (match mirrorViaNeuron f1 m1 (brainUnits e1) g f2 m2 (brainUnits e2) n with
+        | some out => showNeuron out
+        | none => "RAISES")
+    | _ => none
+  | "image" => match rest.splitOn "|" with
+    | [f, shape, off, pitch, vox] => do
+      let ts ← parseAffSeq f; let (g, _) ← parseGrid shape off pitch vox
+      if !invertible ts then pure "RAISES" else
+      pure s!"off={showV3 (imageOff ts g)} pitch={showV3 (imagePitch ts g)} vox={showVox (imageSparse ts g)}"
+    | _ => none
+  | "imgcheck" => match rest.splitOn "|" with
+    | [f, eps, shape, off, pitch, vox, off', pitch', vox'] => do
+      let ts ← parseAffSeq f; let eps ← parseRat eps; let (g, _) ← parseGrid shape off pitch vox
+      let off' ← parseV3 (items off' ","); let pitch' ← parseV3 (items pitch' ","); let v' ← parseVox vox'
+      pure (b01 (imageOK eps ts g off' pitch' (sparseVal v')))
+    | _ => none
+  | "imgland" => match rest.splitOn "|" with
+    | [f, eps, shape, off, pitch, vox, off', pitch', vox'] => do
+      let ts ← parseAffSeq f; let eps ← parseRat eps; let (g, src) ← parseGrid shape off pitch vox
+      let off' ← parseV3 (items off' ","); let pitch' ← parseV3 (items pitch' ","); let v' ← parseVox vox'
+      pure s!"{b01 (landsOK eps (seqApply ts) g src off' pitch' (sparseVal v'))} n={landCount (seqApply ts) g src off' pitch'}"
+    | _ => none
+  | "pullback" => match rest.splitOn "|" with
+    | [f, pts] => do
+      let ts ← parseAffSeq f; let pts ← parsePts pts
+      if !invertible ts then pure "RAISES" else pure (showPts (pts.map (seqApply (negSeq ts))))
+    | _ => none
+  | "forward" => match rest.splitOn "|" with
+    | [f, pts] => do
+      let ts ← parseAffSeq f; let pts ← parsePts pts
+      pure (showPts (pts.map (seqApply ts)))
     | _ => none
   | "size" => match (items rest ",").mapM parseRat with
     | some [lo, hi] => some (showRat (axisSize lo hi))
